@@ -116,7 +116,7 @@ def run_case(spec, j):
   j.check('C03.returns-self', ret is est, det)
   L = getattr(est, 'components_', None)
   good = (isinstance(L, np.ndarray) and L.ndim == 2 and
-          L.dtype == np.float64 and np.all(np.isfinite(L)) and
+          L.dtype.kind == 'f' and np.all(np.isfinite(L)) and
           L.shape[1] == d)
   j.check('C03.components', good,
           dict(det, type=type(L).__name__,
